@@ -439,6 +439,40 @@ func runLayout(cfg *PropConfig, w *World) *FuncReport {
 		fmt.Fprintf(&cf, "const long long __cval_%d = (long long)(%s);\n", i, cp.c)
 	}
 	fmt.Fprintf(&cf, "const long long __cval_maxmatch = (long long)(MAX_MATCH_SET_LEN);\n")
+	// every object-like #define of tproxy.c whose CamelCase name is a constant of common/consts
+	// (TASK_COMM_LEN -> TaskCommLen, TPROXY_MARK -> TproxyMark, ...)
+	var defPairs []constPair
+	for _, d := range defines {
+		m := reDefine.FindStringSubmatch(d)
+		if m == nil {
+			continue
+		}
+		gn := goNameOfC(strings.ToLower(m[1]))
+		if _, ok := consts.Scope().Lookup(gn).(*types.Const); ok {
+			defPairs = append(defPairs, constPair{m[1], gn})
+		}
+	}
+	for i, cp := range defPairs {
+		fmt.Fprintf(&cf, "const long long __dval_%d = (long long)(%s);\n", i, cp.c)
+	}
+	// file-scope `static const <int type> name [= literal];` keys of tproxy.c (zero_key, one_key, two_key)
+	type keyConst struct {
+		c, goName string
+		val       int64
+	}
+	var keyConsts []keyConst
+	reStaticConst := regexp.MustCompile(`(?m)^static const __u(?:8|16|32|64) (\w+)(?:\s*=\s*(0x[0-9a-fA-F]+|\d+))?;`)
+	for _, m := range reStaticConst.FindAllStringSubmatch(src, -1) {
+		gn := goNameOfC(m[1])
+		if _, ok := consts.Scope().Lookup(gn).(*types.Const); !ok {
+			continue
+		}
+		var v int64
+		if m[2] != "" {
+			v, _ = strconv.ParseInt(m[2], 0, 64)
+		}
+		keyConsts = append(keyConsts, keyConst{m[1], gn, v})
+	}
 
 	tmp, err := os.MkdirTemp("", "govc-layout-")
 	if err != nil {
@@ -563,6 +597,23 @@ func runLayout(cfg *PropConfig, w *World) *FuncReport {
 		}
 		gv, exact := constantInt64(obj)
 		add("const:"+cp.c, fmt.Sprintf("%s == consts.%s", cp.c, cp.goName), exact && gv == cv, fmt.Sprintf("C %d, Go %d", cv, gv))
+	}
+	for i, cp := range defPairs {
+		cv, ok := irv[fmt.Sprintf("__dval_%d", i)]
+		if !ok {
+			return fail("no value for #define %s", cp.c)
+		}
+		obj := consts.Scope().Lookup(cp.goName).(*types.Const)
+		gv, exact := constantInt64(obj)
+		add("const:"+cp.c, fmt.Sprintf("#define %s == consts.%s", cp.c, cp.goName), exact && gv == cv, fmt.Sprintf("C %d, Go %d", cv, gv))
+	}
+	for _, kc := range keyConsts {
+		obj := consts.Scope().Lookup(kc.goName).(*types.Const)
+		gv, exact := constantInt64(obj)
+		add("const:"+kc.c, fmt.Sprintf("static const %s == consts.%s", kc.c, kc.goName), exact && gv == kc.val, fmt.Sprintf("C %d, Go %d", kc.val, gv))
+	}
+	if len(keyConsts) < 3 {
+		return fail("expected the map keys zero_key/one_key/two_key of tproxy.c to have Go counterparts, found %d", len(keyConsts))
 	}
 	// MAX_MATCH_SET_LEN vs the initialiser of consts.MaxMatchSetLen
 	if gv, err := varInitValue(filepath.Join(repoDir, "common/consts/ebpf.go"), "MaxMatchSetLen"); err != nil {
